@@ -81,7 +81,30 @@ func (c *Change) Match(f *ast.File) (d data.Data, ok bool) {
 // Replace generates a replacement File based on previously captured match
 // data.
 func (c *Change) Replace(d data.Data, cl Changelog) (*ast.File, error) {
-	return c.replacer.Replace(d, cl)
+	f, err := c.replacer.Replace(d, cl)
+	if err != nil {
+		return nil, err
+	}
+	parenthesizeStarOperands(f)
+	return f, nil
+}
+
+// parenthesizeStarOperands puts parentheses around binary expressions that a
+// replacement placed directly below a "*".
+//
+// go/printer adds the parentheses an operand needs by looking at operator
+// precedence, except below a StarExpr: the parser never produces one there
+// without a ParenExpr, so the printer does not expect it. Replacing foo(p)
+// by p + 1 in "*foo(p)" would print as "*p + 1", which means (*p) + 1.
+func parenthesizeStarOperands(f *ast.File) {
+	ast.Inspect(f, func(n ast.Node) bool {
+		if star, ok := n.(*ast.StarExpr); ok {
+			if bin, ok := star.X.(*ast.BinaryExpr); ok {
+				star.X = &ast.ParenExpr{Lparen: bin.Pos(), X: bin, Rparen: bin.End()}
+			}
+		}
+		return true
+	})
 }
 
 func connectDots(fset *token.FileSet, lhs, rhs []token.Pos, conns map[token.Pos]token.Pos) error {
